@@ -63,6 +63,18 @@ def run(ctx, res):
                           "`Layout: Ws | Comment;` the input `a /*c*/ b` is accepted and the leaf `b` carries ` `, the pieces ` ` "
                           "and `/*c*/` before it are lost - the tree does not reproduce the input", f.loc())
         break
+    # ... "inserting layout between the tokens of a sentence never changes which tree is built": with tokens tried first, layout
+    # that BEGINS like an expected token is taken for that token (`1/*c*/ / 2` under `E: E '/' E | Num` with `/* */` comments:
+    # the `/` of `/*` is an expected Div; `1 /*c*/ / 2` parses). Both parsers work that way, by design (D41): known finding,
+    # keyed on the order the decision table shows.
+    tokens_first = any(a.get("token") == "Some" and not calls(p, "parse_with_context") for a, out, p in rows) and \
+        any(calls(p, "parse_with_context") for a, out, p in rows)
+    if tokens_first:
+        res.violation(rid1, "layout-after-tokens", "the token fetch asks the lexer first and the layout parser only when no expected token "
+                      "matched: layout glued to the previous token whose first characters form an expected token is lexed as that "
+                      "token - inserting layout between two tokens of a sentence can change the parse or make it fail", f.loc())
+    elif rows:
+        res.ok(rid1, "layout-after-tokens", f.loc(), "layout is not tried after tokens only")
     # R2 layout survives re-lexing after a reduce; R7 it is reset after a shift
     rid2 = res.rule("C14-R2", "layout read before the re-lex after a reduce is restored after it; after a shift the layout is reset "
                     "before the next token is looked for", floor=3)
